@@ -4,7 +4,7 @@
    the bempp-cl sources on every run. *)
 From Coq Require Import Reals QArith List Arith.
 From BV Require Import Bary.Syms Bary.Model Bary.RwgModel Bary.Tables Bary.RwgReal Bary.DualModel Bary.DualProofs.
-From BV Require Import Quad.Rules Quad.Exactness Bary.Mass.
+From BV Require Import Quad.Rules Quad.Exactness Bary.Mass Bary.BcModel Bary.BcProofs.
 From BVgen Require Import BaryTables.
 Import ListNotations.
 Open Scope Q_scope.
@@ -95,6 +95,39 @@ Theorem C10_snc_table_pointwise :
                (rscale (rwg_T snc_coeffs (mk_tri P0 P1 P2) a j 2) (snc_eval (child (mk_tri P0 P1 P2) j) 2 st))).
 Proof. exact (snc_table_pointwise snc_coeffs snc_entry). Qed.
 Print Assumptions C10_snc_table_pointwise.
+
+(* ---- BC / RBC: coefficient stage (Bary/BcModel.v, pinned to the text of grid.py by the translator and corresponded
+   with every column of dof_transformation), for EVERY valence nc >= 1, sign and edge length: the coefficients written
+   on the two sides of a barycentric edge carry opposite fluxes (coefficient x edge length; the barycentric RWG function
+   of a local edge has unit normal component there and none on the other edges, C09) - interior vertex: consecutive fan
+   entries; border vertex (open or truncated fan): local edges 0 and 1; reference edge: the two cells of each side *)
+Theorem C10_bc_normal_continuity :
+  forall (eid : slot -> nat) (len : nat -> Q),
+    (forall nc, (0 < nc)%nat -> forall fan sign, pairs_cancel eid len (interior_coeffs eid len nc fan sign)) /\
+    (forall nc, (0 < nc)%nat -> forall sorted ref sign s1 s2,
+        eid s1 = eid s2 -> snd s1 = 0%nat -> snd s2 = 1%nat -> ~ len (eid s1) == 0 ->
+        border_value eid len nc sorted ref sign s1 * len (eid s1) +
+        border_value eid len nc sorted ref sign s2 * len (eid s2) == 0) /\
+    (forall um up lm lp,
+        eid (um, 2%nat) = eid (up, 2%nat) -> eid (lm, 2%nat) = eid (lp, 2%nat) ->
+        ~ len (eid (um, 2%nat)) == 0 -> ~ len (eid (lm, 2%nat)) == 0 ->
+        match reference_part eid len um up lm lp with
+        | [(s1, v1); (s2, v2); (s3, v3); (s4, v4)] =>
+            v1 * len (eid s1) + v2 * len (eid s2) == 0 /\ v3 * len (eid s3) + v4 * len (eid s4) == 0
+        | _ => False
+        end).
+Proof.
+  exact (fun eid len => conj (interior_flux_cancels eid len) (conj (border_flux_cancels eid len) (reference_flux_cancels eid len))).
+Qed.
+Print Assumptions C10_bc_normal_continuity.
+
+(* RBC = n x BC pointwise on every barycentric element, for every coefficient triple *)
+Theorem C10_rbc_is_n_cross_bc :
+  forall (T : tri) (c0 c1 c2 : R) (st : R2),
+    radd (rscale c0 (snc_eval T 0 st)) (radd (rscale c1 (snc_eval T 1 st)) (rscale c2 (snc_eval T 2 st))) =
+    rcross (normal T) (radd (rscale c0 (rwg_eval T 0 st)) (radd (rscale c1 (rwg_eval T 1 st)) (rscale c2 (rwg_eval T 2 st)))).
+Proof. exact rbc_n_cross_bc. Qed.
+Print Assumptions C10_rbc_is_n_cross_bc.
 
 (* ---- mixed mass matrices, partial: on every barycentric element the triangle rule of any order 2..20 (default 4)
    gives the local mass matrices of P1xP1 (1/12, 1/24), P1xP0 (1/6), P0xP0 (1/2) and every monomial of degree <= 2
